@@ -4,9 +4,13 @@
    table; conv_spec / convert are the hand-written specification of the dispatch and the model
    of vnadata_convert (coq/Data/ConvertModel.v), tied to the implementation by the op-script
    correspondence of checks/C15.py / checks/C05.py.  `conv fn n m z0` is the (abstract) call of
-   the vnaconv function fn; what each function computes is property C04. *)
+   the vnaconv function fn; what each function computes is property C04.
+   Lemmas: Data/ConvertProofs.v (table, rejection), Data/ConvertRefine.v (refinement of the
+   conversion to the array specification Data/ArraySpec.v), Data/ConvertTheorems.v (corollaries),
+   Data/ConvertExamples.v (concrete objects, vm_compute). *)
 Require Import List ZArith String.
-Require Import LV.Data.DataModel LV.Data.ConvertModel LV.Data.DataProofs LV.Data.ConvertProofs.
+Require Import LV.Data.DataModel LV.Data.ArraySpec LV.Data.ConvertModel LV.Data.DataProofs LV.Data.RefineProofs
+  LV.Data.ConvertProofs LV.Data.ConvertRefine LV.Data.ConvertTheorems LV.Data.ConvertExamples.
 Import ListNotations.
 
 (* All 121 pairs: the code's entry is INVAL exactly where the specification has no conversion;
@@ -47,46 +51,254 @@ Proof. exact table_arity. Qed.
 Print Assumptions c05_table_arity.
 
 (* Rejection leaves the destination unchanged. *)
-Theorem c05_convert_reject_unchanged : forall (V : Type) (vzero vdef : V) conv din dout same ntz,
+Theorem c05_convert_reject_unchanged : forall (V : Type) (vzero vdef : V) dd2 conv din dout same ntz,
   (vpt_of_Z ntz = None \/
    (exists nt, vpt_of_Z ntz = Some nt /\
       (conv_spec (ty V din) nt = None \/
        exists cs, conv_spec (ty V din) nt = Some cs /\ dim_ok (cs_dim cs) (rows V din) (cols V din) = false))) ->
-  convert V vzero vdef fixed conv din dout same ntz = (if same then din else dout, fail V).
+  convert V vzero vdef fixed dd2 conv din dout same ntz = (if same then din else dout, fail V).
 Proof. exact convert_reject_unchanged. Qed.
 Print Assumptions c05_convert_reject_unchanged.
 
-(* In-place matrix-to-matrix conversion (partial: the out-of-place case and the Zin case are tied
-   by the correspondence only): per frequency, the selected function applied to that frequency's
-   matrix with that frequency's impedances; frequencies and impedances unchanged. *)
-Theorem c05_convert_pointwise_inplace_partial : forall (V : Type) (vzero vdef : V) conv d ntz nt cs,
-  Inv V vzero vdef d ->
-  vpt_of_Z ntz = Some nt -> conv_spec (ty V d) nt = Some cs -> cs_kind cs = KXtoY ->
-  dim_ok (cs_dim cs) (rows V d) (cols V d) = true -> rows V d = cols V d ->
+(* ---------------------------------------------------------------- the result of a conversion
+   Inv = the representation invariant of the container (DataProofs.Inv: logical sizes within the
+   allocations, every cell outside the logical box initial, type fits the dimensions; it holds in
+   every state reachable from vnadata_alloc, c15_inv_reachable, and in every state of the
+   two-object machine, c05_machine_invariant below).  `same` = the two pointers are equal
+   (the destination argument is then ignored); otherwise dout is ANY valid object - larger or
+   smaller allocations, other type, other z0 mode, old contents.
+
+   Matrix -> matrix and matrix -> Zin, in place or into a second object: success; per frequency the
+   selected function applied to that frequency's matrix with that frequency's impedances
+   (per-frequency row when the source has them, ordinary vector otherwise); frequencies,
+   impedances and save options are those of the source; the result is n x n resp. 1 x n; every
+   cell outside the result - allocated or not, hence whatever a later resize exposes - is initial
+   ("the contents of a freshly built object"). *)
+Theorem c05_convert_pointwise : forall (V : Type) (vzero vdef : V) dd2 conv d dout same ntz nt cs,
+  Inv V vzero vdef d -> Inv V vzero vdef dout ->
+  vpt_of_Z ntz = Some nt -> conv_spec (ty V d) nt = Some cs -> cs_kind cs <> KSame ->
+  dim_ok (cs_dim cs) (rows V d) (cols V d) = true ->
   let n := rows V d in
-  let d' := fst (convert V vzero vdef fixed conv d d true ntz) in
-  snd (convert V vzero vdef fixed conv d d true ntz) = ok V /\
-  ty V d' = nt /\ rows V d' = n /\ cols V d' = n /\ freqs V d' = freqs V d /\
-  per_f V d' = per_f V d /\ z0v V d' = z0v V d /\ z0vv V d' = z0vv V d /\ fv V d' = fv V d /\
-  (forall f j, f < freqs V d -> j < n * n ->
+  let len := match cs_kind cs with KXtoI => n | _ => n * n end in
+  let d' := fst (convert V vzero vdef fixed dd2 conv d dout same ntz) in
+  snd (convert V vzero vdef fixed dd2 conv d dout same ntz) = ok V /\ Inv V vzero vdef d' /\
+  cols V d = n /\ ty V d' = nt /\
+  rows V d' = (match cs_kind cs with KXtoI => 1 | _ => n end) /\ cols V d' = n /\ freqs V d' = freqs V d /\
+  (forall f, f < freqs V d -> fv V d' f = fv V d f) /\
+  (forall f p, f < freqs V d -> p < n -> z0_row V d' f p = z0_row V d f p) /\
+  ftype V d' = ftype V d /\ fmt V d' = fmt V d /\ fprec V d' = fprec V d /\ dprec V d' = dprec V d /\
+  (forall f j, f < freqs V d -> j < len ->
      dat V d' f j = nth j (conv (cs_fn cs) n (map (dat V d f) (seq 0 (n * n)))
                              (if cs_z0 cs then map (z0_row V d f) (seq 0 n) else [])) vzero) /\
-  (forall f j, ~ (f < freqs V d /\ j < n * n) -> dat V d' f j = dat V d f j).
-Proof. exact convert_pointwise_inplace. Qed.
-Print Assumptions c05_convert_pointwise_inplace_partial.
+  (forall f j, ~ (f < freqs V d /\ j < len) -> dat V d' f j = vzero).
+Proof. exact convert_pointwise. Qed.
+Print Assumptions c05_convert_pointwise.
 
-(* Conversion to Zin in place, then growing the object again: the re-exposed cells are initial
-   (concrete history, arbitrary values and conversion function) ... *)
-Theorem c05_convert_zin_fresh_example : forall (V : Type) (vzero vdef : V) conv a b c e,
-  let s := mrun V vzero vdef fixed conv (minit V vzero vdef) (zin_history V a b c e) in
+(* Same type into a second object: a copy of everything. *)
+Theorem c05_convert_copy : forall (V : Type) (vzero vdef : V) dd2 conv d dout ntz nt cs,
+  Inv V vzero vdef d -> Inv V vzero vdef dout ->
+  vpt_of_Z ntz = Some nt -> conv_spec (ty V d) nt = Some cs -> cs_kind cs = KSame ->
+  dim_ok (cs_dim cs) (rows V d) (cols V d) = true ->
+  let d' := fst (convert V vzero vdef fixed dd2 conv d dout false ntz) in
+  snd (convert V vzero vdef fixed dd2 conv d dout false ntz) = ok V /\ Inv V vzero vdef d' /\
+  ty V d' = ty V d /\ rows V d' = rows V d /\ cols V d' = cols V d /\ freqs V d' = freqs V d /\
+  (forall f, fv V d' f = fv V d f) /\
+  (forall f p, f < freqs V d -> p < ports V d -> z0_row V d' f p = z0_row V d f p) /\
+  ftype V d' = ftype V d /\ fmt V d' = fmt V d /\ fprec V d' = fprec V d /\ dprec V d' = dprec V d /\
+  (forall f j, dat V d' f j = dat V d f j).
+Proof. exact convert_copy. Qed.
+Print Assumptions c05_convert_copy.
+
+(* The same as one refinement statement: the abstraction (ArraySpec.abs: forget the allocations)
+   of the result of every accepted conversion is the array conv_target (ConvertRefine), whose z0
+   mode is out_perf: the mode of the source in place; out of place the mode of the source unless
+   the source has no frequencies or is a 0 x 0 matrix converted to Zin (see below). *)
+Theorem c05_convert_refines_spec : forall (V : Type) (vzero vdef : V) dd2 conv d dout same ntz nt cs,
+  Inv V vzero vdef d -> Inv V vzero vdef dout ->
+  vpt_of_Z ntz = Some nt -> conv_spec (ty V d) nt = Some cs ->
+  dim_ok (cs_dim cs) (rows V d) (cols V d) = true ->
+  snd (convert V vzero vdef fixed dd2 conv d dout same ntz) = ok V /\
+  Inv V vzero vdef (fst (convert V vzero vdef fixed dd2 conv d dout same ntz)) /\
+  arr_eq V (abs V (fst (convert V vzero vdef fixed dd2 conv d dout same ntz)))
+           (conv_target V vzero vdef conv d nt cs (out_perf V dd2 d cs same)).
+Proof. exact convert_result. Qed.
+Print Assumptions c05_convert_refines_spec.
+
+(* In-place conversion equals conversion into a second object, whatever that object held: equal
+   type, dimensions, frequencies, cells, z0 mode and impedances, save options (arr_eq) ... *)
+Theorem c05_convert_inplace_eq_outofplace : forall (V : Type) (vzero vdef : V) dd2 conv d dout ntz nt cs,
+  Inv V vzero vdef d -> Inv V vzero vdef dout ->
+  vpt_of_Z ntz = Some nt -> conv_spec (ty V d) nt = Some cs ->
+  dim_ok (cs_dim cs) (rows V d) (cols V d) = true ->
+  out_perf V dd2 d cs false = per_f V d ->
+  arr_eq V (abs V (fst (convert V vzero vdef fixed dd2 conv d d true ntz)))
+           (abs V (fst (convert V vzero vdef fixed dd2 conv d dout false ntz))).
+Proof. exact convert_inplace_eq_outofplace. Qed.
+Print Assumptions c05_convert_inplace_eq_outofplace.
+
+(* ... hence equal outcomes (return class, callbacks, payload of every getter) for every later
+   history of container operations, resizes included. *)
+Theorem c05_convert_inplace_eq_outofplace_traces :
+  forall (V : Type) (vzero vdef : V) dd2 conv d dout ntz nt cs (l : list (op V)),
+  Inv V vzero vdef d -> Inv V vzero vdef dout ->
+  vpt_of_Z ntz = Some nt -> conv_spec (ty V d) nt = Some cs ->
+  dim_ok (cs_dim cs) (rows V d) (cols V d) = true ->
+  out_perf V dd2 d cs false = per_f V d ->
+  trace V vzero vdef (fst (convert V vzero vdef fixed dd2 conv d d true ntz)) l =
+  trace V vzero vdef (fst (convert V vzero vdef fixed dd2 conv d dout false ntz)) l.
+Proof. exact convert_inplace_eq_outofplace_traces. Qed.
+Print Assumptions c05_convert_inplace_eq_outofplace_traces.
+
+(* dd2 = whether the repair of finding DD2 (fixes/DD2_convert_keeps_fz0_mode.diff) is in the code:
+   the check selects the value the compiled code exhibits.  The hypothesis out_perf = per_f holds
+   - always when dd2 = true (c05_convert_inplace_eq_outofplace_repaired states that case without it),
+   - for the code as found (dd2 = false) for every source in ordinary z0 mode and for every source
+     in per-frequency mode that has at least one frequency (and at least one port when converting
+     to Zin). *)
+Theorem c05_convert_inplace_eq_mode_condition : forall (V : Type) dd2 (d : vd V) nt cs,
+  conv_spec (ty V d) nt = Some cs -> dim_ok (cs_dim cs) (rows V d) (cols V d) = true ->
+  dd2 = true \/ per_f V d = false \/ (freqs V d <> 0 /\ (cs_kind cs = KXtoI -> rows V d <> 0)) ->
+  out_perf V dd2 d cs false = per_f V d.
+Proof. exact out_perf_same_mode. Qed.
+Print Assumptions c05_convert_inplace_eq_mode_condition.
+
+Theorem c05_convert_inplace_eq_outofplace_repaired : forall (V : Type) (vzero vdef : V) conv d dout ntz nt cs,
+  Inv V vzero vdef d -> Inv V vzero vdef dout ->
+  vpt_of_Z ntz = Some nt -> conv_spec (ty V d) nt = Some cs ->
+  dim_ok (cs_dim cs) (rows V d) (cols V d) = true ->
+  arr_eq V (abs V (fst (convert V vzero vdef fixed true conv d d true ntz)))
+           (abs V (fst (convert V vzero vdef fixed true conv d dout false ntz))).
+Proof. exact convert_inplace_eq_outofplace_repaired. Qed.
+Print Assumptions c05_convert_inplace_eq_outofplace_repaired.
+
+Theorem c05_convert_inplace_eq_outofplace_traces_repaired :
+  forall (V : Type) (vzero vdef : V) conv d dout ntz nt cs (l : list (op V)),
+  Inv V vzero vdef d -> Inv V vzero vdef dout ->
+  vpt_of_Z ntz = Some nt -> conv_spec (ty V d) nt = Some cs ->
+  dim_ok (cs_dim cs) (rows V d) (cols V d) = true ->
+  trace V vzero vdef (fst (convert V vzero vdef fixed true conv d d true ntz)) l =
+  trace V vzero vdef (fst (convert V vzero vdef fixed true conv d dout false ntz)) l.
+Proof. exact convert_inplace_eq_outofplace_traces_repaired. Qed.
+Print Assumptions c05_convert_inplace_eq_outofplace_traces_repaired.
+
+(* Outside that condition the clause is false of the code as found (dd2 = false, finding DD2): a 2 x 2 object in
+   per-frequency-z0 mode with no frequencies converts in place to an object that still is in
+   per-frequency mode, and into a fresh object to one in ordinary mode (vnadata_has_fz0). *)
+Theorem c05_convert_inplace_eq_refuted_without_frequencies :
+  Inv sym (L 0) (L 50) ex_nofreq /\
+  per_f sym ex_nofreq = true /\ freqs sym ex_nofreq = 0 /\
+  snd (convert sym (L 0) (L 50) fixed false sconv ex_nofreq ex_nofreq true 4) = ok sym /\
+  snd (convert sym (L 0) (L 50) fixed false sconv ex_nofreq (vd_alloc sym (L 0) (L 50)) false 4) = ok sym /\
+  snd (has_fz0 sym (fst (convert sym (L 0) (L 50) fixed false sconv ex_nofreq ex_nofreq true 4))) = okp sym (PBool true) /\
+  snd (has_fz0 sym (fst (convert sym (L 0) (L 50) fixed false sconv ex_nofreq (vd_alloc sym (L 0) (L 50)) false 4)))
+    = okp sym (PBool false).
+Proof. exact (conj ex_nofreq_inv convert_inplace_eq_refuted_without_frequencies). Qed.
+Print Assumptions c05_convert_inplace_eq_refuted_without_frequencies.
+
+(* The previous contents of the destination are irrelevant. *)
+Theorem c05_convert_destination_irrelevant : forall (V : Type) (vzero vdef : V) dd2 conv d dout1 dout2 ntz nt cs,
+  Inv V vzero vdef d -> Inv V vzero vdef dout1 -> Inv V vzero vdef dout2 ->
+  vpt_of_Z ntz = Some nt -> conv_spec (ty V d) nt = Some cs ->
+  dim_ok (cs_dim cs) (rows V d) (cols V d) = true ->
+  arr_eq V (abs V (fst (convert V vzero vdef fixed dd2 conv d dout1 false ntz)))
+           (abs V (fst (convert V vzero vdef fixed dd2 conv d dout2 false ntz))).
+Proof. exact convert_outofplace_dest_irrelevant. Qed.
+Print Assumptions c05_convert_destination_irrelevant.
+
+(* The source of an out-of-place conversion is not written, whatever the outcome.  (True by
+   construction of the model - convert returns the new destination only, as the C function takes
+   a const source; that the implementation leaves the source alone is checked by the
+   correspondence, which digests the source after every out-of-place conversion.) *)
+Theorem c05_convert_source_unchanged : forall (V : Type) (vzero vdef : V) dd2 conv Q s a b nt, a <> b ->
+  sel V (fst (mstep V vzero vdef Q dd2 conv s (MConv V a b nt))) a = sel V s a.
+Proof. exact mstep_conv_source_unchanged. Qed.
+Print Assumptions c05_convert_source_unchanged.
+
+(* Every call of vnadata_convert on valid objects (accepted or refused, any new type code, in place
+   or not) leaves the destination valid, and no checked array access of the model is out of
+   bounds; hence both objects are valid in every state the two-object machine (container
+   operations on either object, conversions in every direction, free + alloc) reaches from two
+   fresh objects - the hypotheses `Inv` above are met in all those states. *)
+Theorem c05_convert_total : forall (V : Type) (vzero vdef : V) dd2 conv d dout same ntz,
+  Inv V vzero vdef d -> Inv V vzero vdef dout ->
+  Inv V vzero vdef (fst (convert V vzero vdef fixed dd2 conv d dout same ntz)) /\
+  o_ret V (snd (convert V vzero vdef fixed dd2 conv d dout same ntz)) <> RFault.
+Proof. exact convert_total. Qed.
+Print Assumptions c05_convert_total.
+
+Theorem c05_machine_invariant : forall (V : Type) (vzero vdef : V) dd2 conv (l : list (mop V)),
+  let s := mrun V vzero vdef fixed dd2 conv (minit V vzero vdef) l in
+  Inv V vzero vdef (fst s) /\ Inv V vzero vdef (snd s).
+Proof. exact mrun_inv_init. Qed.
+Print Assumptions c05_machine_invariant.
+
+(* Non-vacuity: a 2 x 2 S object with two frequencies and per-frequency impedances (50, 75 at
+   frequency 0; 60, 85 at frequency 1) and a used 3 x 3 x 3 destination satisfy the hypotheses ... *)
+Theorem c05_convert_hypotheses_satisfiable :
+  Inv sym (L 0) (L 50) ex_src /\ Inv sym (L 0) (L 50) ex_dst /\
+  vpt_of_Z 4 = Some VZ /\ conv_spec (ty sym ex_src) VZ = Some cs_sz /\ cs_kind cs_sz <> KSame /\
+  dim_ok (cs_dim cs_sz) (rows sym ex_src) (cols sym ex_src) = true /\
+  out_perf sym false ex_src cs_sz false = per_f sym ex_src.
+Proof. exact (conj ex_src_inv (conj ex_dst_inv ex_sz_hyps)). Qed.
+Print Assumptions c05_convert_hypotheses_satisfiable.
+
+(* ... and the result, evaluated: vnaconv_stozn on frequency f's matrix with frequency f's
+   impedances, in place and out of place alike (R fn n m z0 i = cell i of fn(m, z0, n)). *)
+Theorem c05_convert_example :
+  observe sym (fst (convert sym (L 0) (L 50) fixed false sconv ex_src ex_dst false 4)) = sz_expected /\
+  observe sym (fst (convert sym (L 0) (L 50) fixed false sconv ex_src ex_src true 4)) = sz_expected /\
+  ob_dat sym sz_expected =
+    [[R (FN VS VZ) 2 [L 1; L 2; L 3; L 4] [L 50; L 75] 0; R (FN VS VZ) 2 [L 1; L 2; L 3; L 4] [L 50; L 75] 1;
+      R (FN VS VZ) 2 [L 1; L 2; L 3; L 4] [L 50; L 75] 2; R (FN VS VZ) 2 [L 1; L 2; L 3; L 4] [L 50; L 75] 3];
+     [R (FN VS VZ) 2 [L 5; L 6; L 7; L 8] [L 60; L 85] 0; R (FN VS VZ) 2 [L 5; L 6; L 7; L 8] [L 60; L 85] 1;
+      R (FN VS VZ) 2 [L 5; L 6; L 7; L 8] [L 60; L 85] 2; R (FN VS VZ) 2 [L 5; L 6; L 7; L 8] [L 60; L 85] 3]] /\
+  ob_z0 sym sz_expected = [[L 50; L 75]; [L 60; L 85]].
+Proof.
+  exact (conj (proj1 (proj2 ex_sz_outofplace)) (conj (proj2 ex_sz_inplace) (conj eq_refl eq_refl))).
+Qed.
+Print Assumptions c05_convert_example.
+
+(* Conversion to Zin of the same object, in place and out of place: 1 x 2, vnaconv_stozin with the
+   per-frequency impedances; the vacated cells 2, 3 are initial and stay so when the object grows. *)
+Theorem c05_convert_zin_example :
+  observe sym (fst (convert sym (L 0) (L 50) fixed false sconv ex_src ex_src true 10)) = zin_expected /\
+  observe sym (fst (convert sym (L 0) (L 50) fixed false sconv ex_src ex_dst false 10)) = zin_expected /\
+  (forall k, In k [2; 3] ->
+     dat sym (fst (convert sym (L 0) (L 50) fixed false sconv ex_src ex_src true 10)) 0 k = L 0 /\
+     dat sym (fst (convert sym (L 0) (L 50) fixed false sconv ex_src ex_dst false 10)) 0 k = L 0) /\
+  ob_dat sym (observe sym (fst (resize sym (L 0) (L 50) fixed
+                                  (fst (convert sym (L 0) (L 50) fixed false sconv ex_src ex_src true 10)) 0 2 2 2))) =
+    [[R (FIN VS) 2 m0 [L 50; L 75] 0; R (FIN VS) 2 m0 [L 50; L 75] 1; L 0; L 0];
+     [R (FIN VS) 2 m1 [L 60; L 85] 0; R (FIN VS) 2 m1 [L 60; L 85] 1; L 0; L 0]].
+Proof. exact ex_zin. Qed.
+Print Assumptions c05_convert_zin_example.
+
+(* With the repair (dd2 = true) the object without frequencies keeps its mode out of place as well,
+   and the examples above evaluate to the same results. *)
+Theorem c05_convert_repaired_example :
+  snd (has_fz0 sym (fst (convert sym (L 0) (L 50) fixed true sconv ex_nofreq ex_nofreq true 4))) = okp sym (PBool true) /\
+  snd (has_fz0 sym (fst (convert sym (L 0) (L 50) fixed true sconv ex_nofreq (vd_alloc sym (L 0) (L 50)) false 4)))
+    = okp sym (PBool true) /\
+  observe sym (fst (convert sym (L 0) (L 50) fixed true sconv ex_nofreq ex_nofreq true 4)) =
+  observe sym (fst (convert sym (L 0) (L 50) fixed true sconv ex_nofreq ex_dst false 4)) /\
+  observe sym (fst (convert sym (L 0) (L 50) fixed true sconv ex_src ex_dst false 4)) = sz_expected /\
+  observe sym (fst (convert sym (L 0) (L 50) fixed true sconv ex_src ex_dst false 10)) = zin_expected.
+Proof. exact convert_inplace_eq_without_frequencies_repaired. Qed.
+Print Assumptions c05_convert_repaired_example.
+
+(* Conversion to Zin in place, then growing the object again, as a history from vnadata_alloc with
+   arbitrary values and conversion function: the re-exposed cells are initial (general statement:
+   last clause of c05_convert_pointwise) ... *)
+Theorem c05_convert_zin_fresh_example : forall (V : Type) (vzero vdef : V) dd2 conv a b c e,
+  let s := mrun V vzero vdef fixed dd2 conv (minit V vzero vdef) (zin_history V a b c e) in
   dat V (fst s) 0 2 = vzero /\ dat V (fst s) 0 3 = vzero /\
   dat V (fst s) 0 0 = nth 0 (conv (FIN VS) 2 [a; b; c; e] [vdef; vdef]) vzero.
 Proof. exact convert_zin_fresh_example. Qed.
 Print Assumptions c05_convert_zin_fresh_example.
 
 (* ... whereas the code as found (D5) left the old matrix cells behind. *)
-Theorem c05_convert_zin_fresh_refuted_as_found : forall (V : Type) (vzero vdef : V) conv a b c e,
-  let s := mrun V vzero vdef as_found conv (minit V vzero vdef) (zin_history V a b c e) in
+Theorem c05_convert_zin_fresh_refuted_as_found : forall (V : Type) (vzero vdef : V) dd2 conv a b c e,
+  let s := mrun V vzero vdef as_found dd2 conv (minit V vzero vdef) (zin_history V a b c e) in
   dat V (fst s) 0 2 = c /\ dat V (fst s) 0 3 = e.
 Proof. exact convert_zin_fresh_refuted_as_found. Qed.
 Print Assumptions c05_convert_zin_fresh_refuted_as_found.
